@@ -654,7 +654,7 @@ func init() {
 		ID: "C19", Level: "exploration",
 		Rule:        "generated histories (genesis families of the standard scenarios with validator stake vectors rewritten to primes, powers of two, 1-pip stakes beside 10^9 BIP, commissions 0/1/10/50/99/100, delegators with active and expiring stake locks; state-aware transactions of all types with delegate/unbond/switch/commission-edit/lock weights raised; absences, absence runs, evidence; stake periods 6..60); one evaluation = one committed block whose accrual per validator (floor share of reward+fees+returned accruals among the validators recorded present, remainder to total-slashed) and, at payout heights, every RewardEvent (10% DAO, 10% developers, commission, bip-proportional delegator shares, nothing above the accrued amount except the emission surplus of locked stakes) was compared with the reference; distinct = block classes (pool kind x absences x drops x evidence x cap) and payout classes (commission value, locks, custom-coin stakes, zero accrual, rounding to zero, key change)",
 		Assumptions: []string{"the fee a transaction adds to the block pool is read from its tags (cross-checked against the pool counter after every DeliverTx)", "stakes, accruals, drop marks, commissions and locks are read through the state accessors after the last DeliverTx of the block", "the block reward itself (C28) is taken as the node reports it"},
-		Quick:       42, Thorough: 900, MinEval: 2500, MinDistinct: 25,
+		Quick:       42, Thorough: 420, MinEval: 2500, MinDistinct: 25,
 		Post: func(total *WorkerResult) {
 			RequireSeen(total, "accrual: reward+fees some-absent", "accrual: reward-only", "accrual: zero-pool", "accrual: fees-only", "payout: commission=0", "payout: commission=100",
 				"payout: locked delegator", "payout: emission surplus for locked stakes", "payout: share rounds to zero", "payout: custom-coin stake", "payout: nothing accrued")
